@@ -40,6 +40,9 @@ def check(ctx, report):
     rsa_exponent_length(ctx, report)
     report.rule('C08.R11', 'DSA public key (RFC 2536): T and one common field width of 64 + 8T octets for every size of prime; composed keys read back as the same key')
     dss_key_round_trip(ctx, report)
+    report.rule('C08.R12', 'DNSKEY records of every algorithm of the registry, in the key format of their RFC, are read completely and composed back to the same octets')
+    dnskey_round_trip(ctx, report)
+    report.floor('C08.R12', 30, 'evaluated DNSKEY records')
     txt_chunks(ctx, report)
     complete_consumption(ctx, report)
     # RRSIG inception / expiration (32 bit seconds) and the DNSKEY flag word go through the shared primitives; RSA exponent and
@@ -335,7 +338,7 @@ def rsa_exponent_length(ctx, report):
     """RFC 3110 section 2: the exponent length is one octet for 1..255 and 0x00 + two octets for longer exponents.
     DnsRecordDnskey._compose_public_key_rsa is evaluated (sa.miniexec) with a recording composer for exponent lengths on
     both sides of the boundary and compared with that rule; the parser side is the layout comparison of R1."""
-    from ..miniexec import Evaluator, Obj, Raised, Unsupported
+    from ..miniexec import Evaluator, Obj, Raised, Unsupported, class_call_hook
     rule = 'C08.R5'
     report.rule(rule, 'RSA public key: exponent length form (one octet up to 255, three octets above), exponent and modulus widths')
     c = ctx.model.cls('DnsRecordDnskey')
@@ -358,6 +361,8 @@ def rsa_exponent_length(ctx, report):
         def compose_raw(self, value):
             self.calls.append(('raw', bytes(value)))
     params = [a.arg for a in f.node.args.args if a.arg not in ('self', 'cls')]
+    hook = class_call_hook(c, None, ctx.model)       # helpers and class level constants the composer may use
+    nh = hook.name_hook_for(c.module, None)
     try:
         for length in (1, 3, 4, 127, 254, 255, 256, 257, 300, 1000):
             report.count(rule)
@@ -365,7 +370,7 @@ def rsa_exponent_length(ctx, report):
             modulus = (1 << 2047) + 1
             key = Obj(params=Obj(public_exponent=exponent, modulus=modulus), key_size=2048)
             comp = Composer()
-            Evaluator(dict(zip(params, [comp, key])), None, None).function(f.node)
+            Evaluator(dict(zip(params, [comp, key])), hook, nh).function(f.node)
             prefix = [('u', length, 1)] if length <= 255 else [('u', 0, 1), ('u', length, 2)]
             want = prefix + [('mpint', exponent, length), ('mpint', modulus, 256)]
             if comp.calls != want:
@@ -380,7 +385,7 @@ def rsa_exponent_length(ctx, report):
             bits = int(math.ceil(math.log(modulus, 2)))
             key = Obj(params=Obj(public_exponent=65537, modulus=modulus), key_size=bits + (-bits % 8))
             comp = Composer()
-            Evaluator(dict(zip(params, [comp, key])), None, None).function(f.node)
+            Evaluator(dict(zip(params, [comp, key])), hook, nh).function(f.node)
             need = (modulus.bit_length() + 7) // 8
             got = [c for c in comp.calls if c[0] == 'mpint' and c[1] == modulus]
             if not got or got[-1][2] != need:
@@ -611,6 +616,24 @@ def dss_key_round_trip(ctx, report, rule='C08.R11'):
         return
     for key, text in sorted(problems.items()):
         report.add(rule, '%s@accepted[%s]' % (fp.construct, key), text)
+
+
+def dnskey_round_trip(ctx, report, rule='C08.R12'):
+    """one DNSKEY record per algorithm of the registry, in the key format of its RFC (coordinates with leading zero octets
+    included), through _parse and compose evaluated from their own statements (sa/codecs.py dnskey_record): read completely,
+    composed back to the same octets"""
+    from ..codecs import dnskey_record
+    c = ctx.model.cls('DnsRecordDnskey')
+    ev = dnskey_record(ctx)
+    if not ev['evaluated']:
+        report.add(rule, c.construct + '@evaluation', 'DnsRecordDnskey left the subset the evaluation understands: %s' % ev['why'])
+        return
+    report.count(rule, ev['runs'])
+    for f in ('_parse', 'compose', 'parse_key', 'compose_key'):
+        if c.resolve(f) is not None:
+            report.touch(c.resolve(f))
+    for side, text in sorted(ev['problems'].items()):
+        report.add(rule, '%s@record[%s]' % (c.construct, side), text)
 
 
 def txt_chunks(ctx, report, rule='C08.R7'):
